@@ -79,6 +79,8 @@ class Stats:
             self.excluded_by_bound += 1
         for c in res.classes:
             self.classes[c] = self.classes.get(c, 0)+1
+        for k in getattr(res, 'keys', None) or []:
+            self.nontrivial.add(k)
         if res.nontrivial:
             key = res.key or jhash(case)
             if key not in self.nontrivial and len(self.samples) < 4 and res.sample is not None:
